@@ -277,7 +277,7 @@ impl CoreInner {
 		&self,
 		memtable: Arc<MemTable>,
 		table_id: u64,
-		wal_number: u64,
+		wal_number: Option<u64>,
 	) -> Result<Arc<Table>> {
 		let collect_bptree = self.versioned_index.is_some();
 
@@ -325,12 +325,14 @@ impl CoreInner {
 		// Step 3: Prepare atomic changeset
 		let mut changeset = ManifestChangeSet::default();
 		changeset.new_tables.push((0, Arc::clone(&table)));
-		changeset.log_number = Some(wal_number + 1);
+		// `None`: the WAL segment the memtable came from is still needed (recovery split it over
+		// several memtables and a later one is not flushed yet)
+		changeset.log_number = wal_number.map(|n| n + 1);
 
 		log::debug!(
-			"Changeset prepared: table_id={}, log_number={} (WAL #{:020} flushed)",
+			"Changeset prepared: table_id={}, log_number={:?} (WAL {:?} flushed)",
 			table_id,
-			wal_number + 1,
+			changeset.log_number,
 			wal_number
 		);
 
@@ -345,9 +347,9 @@ impl CoreInner {
 		if let Err(e) = write_manifest_to_disk(&manifest) {
 			manifest.revert_changeset(rollback);
 			let error = Error::Other(format!(
-				"Failed to atomically update manifest: table_id={}, log_number={}: {}",
+				"Failed to atomically update manifest: table_id={}, log_number={:?}: {}",
 				table_id,
-				wal_number + 1,
+				changeset.log_number,
 				e
 			));
 			self.error_handler.set_error(error.clone(), BackgroundErrorReason::ManifestWrite);
@@ -364,9 +366,9 @@ impl CoreInner {
 		drop(memtable);
 
 		log::info!(
-			"Manifest updated atomically: table_id={}, log_number={}, last_sequence={}",
+			"Manifest updated atomically: table_id={}, log_number={:?}, last_sequence={}",
 			table_id,
-			wal_number + 1,
+			changeset.log_number,
 			manifest.get_last_sequence()
 		);
 
@@ -499,7 +501,7 @@ impl CoreInner {
 		let table = self.flush_immutable_to_sst(
 			Arc::clone(&entry.memtable),
 			entry.table_id,
-			entry.wal_number,
+			Some(entry.wal_number),
 		)?;
 
 		// Schedule async WAL cleanup
@@ -643,7 +645,7 @@ impl CoreInner {
 		let table = self.flush_immutable_to_sst(
 			Arc::clone(&flushed_memtable),
 			table_id,
-			wal_that_was_flushed,
+			Some(wal_that_was_flushed),
 		)?;
 
 		Ok(Some(table))
@@ -708,7 +710,7 @@ impl CoreInner {
 			self.flush_immutable_to_sst(
 				Arc::clone(&entry.memtable),
 				entry.table_id,
-				entry.wal_number,
+				Some(entry.wal_number),
 			)?;
 
 			flushed_count += 1;
@@ -1110,7 +1112,7 @@ impl Core {
 		mut flush_memtable: F,
 	) -> Result<(Option<u64>, Option<Arc<MemTable>>)>
 	where
-		F: FnMut(Arc<MemTable>, u64) -> Result<()>,
+		F: FnMut(Arc<MemTable>, Option<u64>) -> Result<()>,
 	{
 		// Replay WAL - returns memtables per segment
 		let (wal_seq_num_opt, memtables) = match replay_wal(wal_path, min_wal_number, arena_size) {
@@ -1186,9 +1188,14 @@ impl Core {
 		let memtable_count = memtables.len();
 		if memtable_count > 1 {
 			log::info!("Recovery: flushing {} intermediate memtables to SST", memtable_count - 1);
-			for (memtable, wal_number) in memtables.iter().take(memtable_count - 1) {
+			for (i, (memtable, wal_number)) in memtables.iter().take(memtable_count - 1).enumerate() {
 				if !memtable.is_empty() {
-					flush_memtable(Arc::clone(memtable), *wal_number)?;
+					// A segment that did not fit one memtable is spread over several. It is
+					// flushed only when the last of them is; as long as a later memtable of the
+					// same segment is not on disk (the last one becomes the active memtable),
+					// the manifest must keep the segment.
+					let segment_done = memtables[i + 1].1 != *wal_number;
+					flush_memtable(Arc::clone(memtable), segment_done.then_some(*wal_number))?;
 				}
 			}
 		}
@@ -1275,7 +1282,7 @@ impl Core {
 				let table_id = inner.level_manifest.read()?.next_table_id();
 				inner.flush_immutable_to_sst(Arc::clone(&memtable), table_id, wal_number)?;
 				log::info!(
-					"Recovery: flushed memtable to SST table_id={}, wal_number={}",
+					"Recovery: flushed memtable to SST table_id={}, wal_number={:?}",
 					table_id,
 					wal_number
 				);
@@ -1697,7 +1704,7 @@ impl Tree {
 					wal_number,
 				)?;
 				log::info!(
-					"Restore: flushed memtable to SST table_id={}, wal_number={}",
+					"Restore: flushed memtable to SST table_id={}, wal_number={:?}",
 					table_id,
 					wal_number
 				);
